@@ -2,7 +2,7 @@
 (* C01 on recorded results: a Forms.tla document, the concrete expectation derived from the
    slot-level ground truth (exp: one record per written citation) and the projected result of
    get_citations (obs).  Text fields that need suffix / whitespace reasoning travel as code points. *)
-EXTENDS Integers, Sequences, FiniteSets, Json, IOUtils, TLC
+EXTENDS Integers, Sequences, FiniteSets, Json, IOUtils, TLC, Hits
 Traces == JsonDeserialize(IOEnv.TRACE_FILE)
 NT == Len(Traces)
 VARIABLES tid, bucket
@@ -16,8 +16,9 @@ WsAfter(txt, p) == IF p + 1 <= Len(txt) /\ IsWs(txt[p + 1]) THEN 1 + WsAfter(txt
 IsSuffix(a, b) == Len(a) <= Len(b) /\ SubSeq(b, Len(b) - Len(a) + 1, Len(b)) = a
 
 Paired(tr) == Len(tr.obs) = Len(tr.exp)
-Clauses == {"C04.noraise", "C01.count", "C01.kind", "C01.span", "C01.groups", "C01.pin", "C01.year", "C01.court",
-            "C01.defendant", "C01.plaintiff", "C01.antecedent", "C01.paren", "C01.fullstart", "C01.fullend", "C01.editions"}
+ClauseSeq == <<"C04.noraise", "C01.count", "C01.kind", "C01.span", "C01.groups", "C01.pin", "C01.year", "C01.court", "C01.defendant", "C01.plaintiff", "C01.antecedent", "C01.paren", "C01.fullstart", "C01.fullend", "C01.editions">>
+Clauses == {ClauseSeq[ci] : ci \in DOMAIN ClauseSeq}
+ASSUME PrintT(<<"CLAUSES", ToJson(ClauseSeq)>>)
 Each(tr, P(_, _)) == Paired(tr) => \A k \in DOMAIN tr.exp : P(tr.exp[k], tr.obs[k])
 Holds(cl, t) ==
   LET tr == T(t) IN
@@ -45,6 +46,26 @@ Holds(cl, t) ==
 TInit == tid = 0 /\ bucket \in 0..(NB - 1)
 TNext == tid = 0 /\ (\E t \in {x \in 1..NT : x % NB = bucket} : tid' = t) /\ UNCHANGED bucket
 TSpec == TInit /\ [][TNext]_<<tid, bucket>>
-Judge == tid # 0 => \A cl \in Clauses : Holds(cl, tid) \/ PrintT(<<"FAIL", tid, cl>>)
+Some(tr, P(_)) == Paired(tr) /\ \E k \in DOMAIN tr.exp : P(tr.exp[k])
+Exercised(cl, t) ==
+  LET tr == T(t) IN
+  IF cl = "C04.noraise" THEN TRUE
+  ELSE IF tr.raised # "" THEN FALSE
+  ELSE CASE cl = "C01.count" -> tr.exp # <<>>
+    [] cl \in {"C01.kind", "C01.span"} -> Some(tr, LAMBDA e : TRUE)
+    [] cl = "C01.groups" -> Some(tr, LAMBDA e : DOMAIN e.groups # {})
+    [] cl = "C01.pin"    -> Some(tr, LAMBDA e : ~e.pin_any /\ e.pin # "")
+    [] cl = "C01.year"   -> Some(tr, LAMBDA e : e.year # "")
+    [] cl = "C01.court"  -> Some(tr, LAMBDA e : e.has_court)
+    [] cl = "C01.defendant"  -> Some(tr, LAMBDA e : e.defendant # "")
+    [] cl = "C01.plaintiff"  -> Some(tr, LAMBDA e : e.plaintiff # "")
+    [] cl = "C01.antecedent" -> Some(tr, LAMBDA e : e.antecedent # "")
+    [] cl = "C01.paren"      -> Some(tr, LAMBDA e : e.paren # "")
+    [] cl = "C01.fullstart"  -> Some(tr, LAMBDA e : e.fs_kind # "none")
+    [] cl = "C01.fullend"    -> Some(tr, LAMBDA e : e.fe # -1)
+    [] cl = "C01.editions"   -> Some(tr, LAMBDA e : e.check_editions)
+    [] OTHER -> FALSE
+Judge == tid # 0 => (/\ \A cl \in Clauses : Holds(cl, tid) \/ PrintT(<<"FAIL", tid, cl>>)
+   /\ PrintT(<<"HIT", tid, Mask([ci \in DOMAIN ClauseSeq |-> Exercised(ClauseSeq[ci], tid)])>>))
 Done == tid # 0 => PrintT(<<"DONE", tid>>)
 =============================================================================
